@@ -100,7 +100,7 @@ def _inline_sync(callee: Callee, depth: int) -> bool:
 def feasible(an: Analysis, path, recv: str, order: str, stop_at_suspension=True) -> bool:
     """whether every time test before the first suspension agrees with the ordering"""
     frames = [recv]
-    for event in path.events:
+    for index, event in enumerate(path.events):
         if event.kind == 'enter':
             frames.append(event['callee'].recv or frames[-1])
         elif event.kind == 'leave':
@@ -110,7 +110,11 @@ def feasible(an: Analysis, path, recv: str, order: str, stop_at_suspension=True)
             return True
         elif event.kind in ('test', 'retval'):
             cur = event.recv or frames[-1]
-            expected = eval_time_test(an, event.node, cur, event.fn, order)
+            node = event.node
+            if isinstance(node, ast.Name):
+                # a local that holds an attribute of self read in this atomic block
+                node = rules.value_expr(path, index, node)
+            expected = eval_time_test(an, node, cur, event.fn, order)
             if expected is not None and expected != event['value']:
                 return False
     return True
@@ -593,24 +597,17 @@ def _clock_as_symbol(expr, fn):
 
 def _established(an, path, index, value, kind, fn, owner, raw_text):
     """'test' / 'assert' when the path establishes value > 0 (delay) / value > now (at)"""
-    from .c16 import asserted
+    asserted = rules.asserted
     text = ast.unparse(value)
     want_expr = ast.parse('(%s) > 0' % text if kind == 'delay' else
                           '(%s) > %s' % (text, NOW), mode='eval').body
     want = asserted(_clock_as_symbol(want_expr, fn), True)
     how = None
     if want is not None:
-        for pos in range(index - 1, -1, -1):
-            event = path.events[pos]
-            if event.kind not in ('test', 'assert') or 'value' not in event.data:
-                continue
-            seen = rules.value_expr(path, pos, event.node, keep_clock=False)
-            if not isinstance(seen, ast.Compare):
-                continue
-            if not isinstance(event.node, ast.Compare) and not _stable_locals(path, seen):
-                continue  # a remembered outcome of a comparison that may have changed
-            if asserted(_clock_as_symbol(seen, event.fn), event['value']) == want:
-                kind_ = 'assert' if event.kind == 'assert' else 'test'
+        for _pos, found, from_assert in rules.path_inequalities(
+                path, 0, index, transform=_clock_as_symbol, keep_clock=False):
+            if found == want:
+                kind_ = 'assert' if from_assert else 'test'
                 how = 'test' if 'test' in (how, kind_) else kind_
     if how:
         return how
